@@ -142,6 +142,12 @@ def run_program(c, rec):
         gs = float(np.asarray(must(lambda: S.logd(vec), "stacked view logd")).reshape(-1)[0])
         require(close(gs, full, 1e-9), "stacked-vector view evaluates to a different number", got=gs, want=full)
         require(S.dim == len(vec), "stacked view dimension is not the sum of the dimensions")
+        # a stacked vector with missing or surplus entries is an evaluation with missing / unknown variables
+        for label, bad in (("one entry short", vec[:-1]), ("two entries too long", np.concatenate([vec, [0.5, 0.5]]))):
+            refused, out = refuses(lambda: S.logd(bad))
+            require(refused, f"the stacked-vector view returned a number for a vector that is {label}", dim=int(S.dim), length=len(bad),
+                    got=None if refused else np.asarray(out, dtype=float).reshape(-1)[:1])
+            rec.count("stacked_wrong_length_refused")
     # malformed evaluations must be refused
     if pn:
         kw = {n: allvals[n] for n in pn}
